@@ -36,6 +36,24 @@ func (w *World) registerMoreIntrinsics() {
 		}
 		return ts
 	}
+	I["@verifOp"] = func(e *Exec, fn *ssa.Function, a []Value) Value {
+		name := e.constStr(a[0], "op name")
+		r, ok := a[1].(*Term).intVal()
+		if !ok {
+			e.unsupported("verifOp result must be concrete on the path")
+		}
+		e.trace = append(e.trace, opRec{name, int(r)})
+		return nil
+	}
+	I["@verifOutcome"] = func(e *Exec, fn *ssa.Function, a []Value) Value {
+		r, ok := a[0].(*Term).intVal()
+		if !ok {
+			e.unsupported("verifOutcome must be concrete on the path")
+		}
+		e.outcome = int(r)
+		e.hasOutcome = true
+		return nil
+	}
 	I["@vAnd"] = func(e *Exec, fn *ssa.Function, a []Value) Value { return mkAnd(terms(e, a[0])...) }
 	I["@vOr"] = func(e *Exec, fn *ssa.Function, a []Value) Value { return mkOr(terms(e, a[0])...) }
 	I["@vImp"] = func(e *Exec, fn *ssa.Function, a []Value) Value { return mkImplies(a[0].(*Term), a[1].(*Term)) }
